@@ -306,6 +306,499 @@ theorem validLow_of_inv (w : W) (hi : Inv w) : validLow w.doc w.buf = true := by
 theorem scene_valid_low (s : Scene) (w : W) (hs : SceneOK s) (h : writeScene s = .ok w) :
     validLow w.doc w.buf = true := validLow_of_inv w (scene_inv s w hs h)
 
+/-! ### index references stay in range (`gltf_refs_in_range`) -/
+
+/-- what the texture path (AddTexture and its callers up to, not including, the material append) leaves untouched -/
+def KeepM (w' w : W) : Prop :=
+  w'.matIdx = w.matIdx ∧ w'.materials = w.materials ∧ w'.meshes = w.meshes ∧ w'.written = w.written
+  ∧ w'.meshIdx = w.meshIdx ∧ w'.nodes = w.nodes ∧ w'.scene = w.scene ∧ w'.accessors = w.accessors ∧ w'.lights = w.lights
+
+theorem KeepM.rfl' (w : W) : KeepM w w := ⟨rfl, rfl, rfl, rfl, rfl, rfl, rfl, rfl, rfl⟩
+
+theorem KeepM.trans' {a b c : W} (h1 : KeepM a b) (h2 : KeepM b c) : KeepM a c := by
+  obtain ⟨a1, a2, a3, a4, a5, a6, a7, a8, a9⟩ := h1
+  obtain ⟨b1, b2, b3, b4, b5, b6, b7, b8, b9⟩ := h2
+  exact ⟨a1.trans b1, a2.trans b2, a3.trans b3, a4.trans b4, a5.trans b5, a6.trans b6, a7.trans b7, a8.trans b8, a9.trans b9⟩
+
+theorem keepM_texPrepare (w : W) (t : PTexture) : KeepM (texPrepare w t) w := by
+  unfold texPrepare; split <;> exact ⟨rfl, rfl, rfl, rfl, rfl, rfl, rfl, rfl, rfl⟩
+
+theorem keepM_texImage (w : W) (u : String) : KeepM (texImage w u).1 w := by
+  unfold texImage; split <;> exact ⟨rfl, rfl, rfl, rfl, rfl, rfl, rfl, rfl, rfl⟩
+
+theorem keepM_texSampler (w : W) (s : Option Sampler) : KeepM (texSampler w s).1 w := by
+  unfold texSampler; split
+  · exact ⟨rfl, rfl, rfl, rfl, rfl, rfl, rfl, rfl, rfl⟩
+  · split <;> exact ⟨rfl, rfl, rfl, rfl, rfl, rfl, rfl, rfl, rfl⟩
+
+theorem keepM_texFinish (w : W) (id : Nat) (t : PTexture) (i : Nat) (s : Option Nat) : KeepM (texFinish w id t i s).1 w := by
+  unfold texFinish; split <;> exact ⟨rfl, rfl, rfl, rfl, rfl, rfl, rfl, rfl, rfl⟩
+
+theorem keepM_addTexture (w : W) (id : Nat) (t : PTexture) : KeepM (addTexture w id t).1 w := by
+  unfold addTexture
+  split
+  · exact keepM_texPrepare w t
+  · exact (keepM_texFinish _ _ _ _ _).trans' ((keepM_texSampler _ _).trans' ((keepM_texImage _ _).trans' (keepM_texPrepare w t)))
+
+theorem keepM_addTexOpt (th : Nat → Option PTexture) (w : W) (o : Option Nat) (r : W × Option TexInfo)
+    (h : addTexOpt th w o = .ok r) : KeepM r.1 w := by
+  unfold addTexOpt at h
+  split at h
+  · injection h with h; subst h; exact KeepM.rfl' w
+  · split at h
+    · cases h
+    · injection h with h; subst h; exact keepM_addTexture _ _ _
+
+theorem keepM_addTexList (th : Nat → Option PTexture) (w : W) (l : List (String × Nat)) (r : W × List (String × TexInfo))
+    (h : addTexList th w l = .ok r) : KeepM r.1 w := by
+  induction l generalizing w r with
+  | nil => simp [addTexList] at h; subst h; exact KeepM.rfl' w
+  | cons kt l ih =>
+    obtain ⟨k, id⟩ := kt
+    simp only [addTexList] at h
+    split at h
+    · cases h
+    · split at h
+      · cases h
+      · rename_i t _ w2 l2 h2
+        injection h with h; subst h
+        exact (ih _ _ h2).trans' (keepM_addTexture _ _ _)
+
+theorem keepM_addMatExts (th : Nat → Option PTexture) (w : W) (l : List PMatExt) (r : W × List GMatExt)
+    (h : addMatExts th w l = .ok r) : KeepM r.1 w := by
+  induction l generalizing w r with
+  | nil => simp [addMatExts] at h; subst h; exact KeepM.rfl' w
+  | cons e l ih =>
+    simp only [addMatExts] at h
+    split at h
+    · cases h
+    · rename_i w1 tis h1
+      split at h
+      · cases h
+      · rename_i w2 l2 h2
+        injection h with h; subst h
+        have := ih _ _ h2
+        exact this.trans' (KeepM.trans' ⟨rfl, rfl, rfl, rfl, rfl, rfl, rfl, rfl, rfl⟩ (keepM_addTexList _ _ _ _ h1))
+
+
+def PrimRefs (na nm : Nat) (p : Prim) : Prop :=
+  (∀ ka ∈ p.attrs, ka.2 < na) ∧ (∀ i, p.indices = some i → i < na) ∧ (∀ m, p.material = some m → m < nm)
+
+def NodeRefs (na nmesh nl : Nat) (n : GNode) : Prop :=
+  (∀ m, n.mesh = some m → m < nmesh) ∧ (∀ ia, n.inst = some ia → ∀ ka ∈ ia, ka.2 < na) ∧ (∀ l, n.light = some l → l < nl)
+
+/-- every stored index is smaller than the current length of the table it points into -/
+structure MRefs (b : Nat) (w : W) : Prop where
+  matIdx : ∀ p ∈ w.matIdx, p.2 < w.materials.length
+  meshes : ∀ gm ∈ w.meshes, ∀ p ∈ gm.prims, PrimRefs w.accessors.length w.materials.length p
+  written : ∀ e ∈ w.written, (∀ ka ∈ e.2.1, ka.2 < w.accessors.length) ∧ e.2.2 < w.accessors.length
+  meshIdx : ∀ p ∈ w.meshIdx, p.2 < w.meshes.length + b     -- `b = 1` only inside AddMesh, between registering and appending
+  nodes : ∀ n ∈ w.nodes, NodeRefs w.accessors.length w.meshes.length w.lights n
+  scene : ∀ n ∈ w.scene, n < w.nodes.length
+
+/-- tables only grow: the same lists of meshes / nodes / … are still fine when accessors, materials, lights grew -/
+theorem mrefs_mono {b : Nat} {w w' : W} (h : MRefs b w) (e1 : w'.matIdx = w.matIdx) (e2 : w'.meshes = w.meshes) (e3 : w'.written = w.written)
+    (e4 : w'.meshIdx = w.meshIdx) (e5 : w'.nodes = w.nodes) (e6 : w'.scene = w.scene)
+    (l1 : w.accessors.length ≤ w'.accessors.length) (l2 : w.materials.length ≤ w'.materials.length) (l3 : w.lights ≤ w'.lights) :
+    MRefs b w' := by
+  refine ⟨?_, ?_, ?_, ?_, ?_, ?_⟩
+  · intro p hp; rw [e1] at hp; have := h.matIdx p hp; omega
+  · intro gm hgm p hp; rw [e2] at hgm
+    obtain ⟨a, b, c⟩ := h.meshes gm hgm p hp
+    exact ⟨fun ka hka => by have := a ka hka; omega, fun i hi => by have := b i hi; omega, fun m hm => by have := c m hm; omega⟩
+  · intro e he; rw [e3] at he
+    obtain ⟨a, b⟩ := h.written e he
+    exact ⟨fun ka hka => by have := a ka hka; omega, by omega⟩
+  · intro p hp; rw [e4] at hp; rw [e2]; exact h.meshIdx p hp
+  · intro n hn; rw [e5] at hn
+    obtain ⟨a, b, c⟩ := h.nodes n hn
+    exact ⟨fun m hm => by have := a m hm; rw [e2]; exact this, fun ia hia ka hka => by have := b ia hia ka hka; omega,
+      fun l hl => by have := c l hl; omega⟩
+  · intro n hn; rw [e6] at hn; rw [e5]; exact h.scene n hn
+
+theorem mrefs_keep {b : Nat} {w w' : W} (h : MRefs b w) (k : KeepM w' w) : MRefs b w' := by
+  obtain ⟨k1, k2, k3, k4, k5, k6, k7, k8, k9⟩ := k
+  exact mrefs_mono h k1 k3 k4 k5 k6 k7 (by rw [k8]; exact Nat.le_refl _) (by rw [k2]; exact Nat.le_refl _) (by rw [k9]; exact Nat.le_refl _)
+
+/-- `AddMaterial` returns an index into the (possibly extended) material list and keeps every table in range -/
+theorem addMaterial_refs (th : Nat → Option PTexture) (w : W) (m : PMaterial) (r : W × Nat)
+    (h : addMaterial th w m = .ok r) (hw : MRefs 0 w) : MRefs 0 r.1 ∧ r.2 < r.1.materials.length := by
+  unfold addMaterial at h
+  split at h
+  · split at h
+    · rename_i e he
+      injection h with h; subst h
+      exact ⟨hw, hw.matIdx e (List.mem_of_getElem? he)⟩
+    · cases h
+  · split at h
+    · cases h
+    · rename_i r1 h1
+      split at h
+      · cases h
+      · rename_i r2 h2
+        split at h
+        · cases h
+        · rename_i r3 h3
+          split at h
+          · cases h
+          · split at h
+            · cases h
+            · rename_i r4 h4
+              split at h
+              · cases h
+              · rename_i r5 h5
+                injection h with h; subst h
+                have k : KeepM r5.1 w := (keepM_addTexOpt _ _ _ _ h5).trans' ((keepM_addTexOpt _ _ _ _ h4).trans'
+                  ((keepM_addMatExts _ _ _ _ h3).trans' ((keepM_addTexOpt _ _ _ _ h2).trans' (keepM_addTexOpt _ _ _ _ h1))))
+                have h5' := mrefs_keep hw k
+                refine ⟨?_, by simp⟩
+                refine ⟨?_, ?_, ?_, ?_, ?_, ?_⟩
+                · intro p hp
+                  simp only [List.mem_append, List.mem_singleton] at hp
+                  rcases hp with hp | rfl
+                  · have := h5'.matIdx p hp; simp; omega
+                  · simp
+                · intro gm hgm p hp
+                  obtain ⟨a, b, c⟩ := h5'.meshes gm hgm p hp
+                  exact ⟨a, b, fun m hm => by have := c m hm; simp; omega⟩
+                · exact h5'.written
+                · exact h5'.meshIdx
+                · exact h5'.nodes
+                · exact h5'.scene
+
+theorem mem_mapInsert {α β} [DecidableEq α] (m : List (α × β)) (k : α) (v : β) (x : α × β)
+    (h : x ∈ mapInsert m k v) : x ∈ m ∨ x = (k, v) := by
+  unfold mapInsert at h
+  simp only [List.mem_append, List.mem_filter, List.mem_singleton] at h
+  rcases h with h | h
+  · exact Or.inl h.1
+  · exact Or.inr h
+
+theorem lookup_mem {α β} [DecidableEq α] (k : α) (l : List (α × β)) (v : β) (h : lookup k l = some v) : (k, v) ∈ l := by
+  induction l with
+  | nil => simp [lookup] at h
+  | cons p r ih =>
+    obtain ⟨a, b⟩ := p
+    simp only [lookup] at h
+    split at h
+    · rename_i hab; injection h with h; subst h; subst hab; simp
+    · simp [ih h]
+
+/-- what the low-level writes leave untouched -/
+def KeepA (w' w : W) : Prop :=
+  w'.matIdx = w.matIdx ∧ w'.meshes = w.meshes ∧ w'.written = w.written ∧ w'.meshIdx = w.meshIdx ∧ w'.nodes = w.nodes
+  ∧ w'.scene = w.scene ∧ w'.materials = w.materials ∧ w'.lights = w.lights ∧ w.accessors.length ≤ w'.accessors.length
+
+theorem KeepA.trans' {a b c : W} (h1 : KeepA a b) (h2 : KeepA b c) : KeepA a c := by
+  obtain ⟨a1, a2, a3, a4, a5, a6, a7, a8, a9⟩ := h1
+  obtain ⟨b1, b2, b3, b4, b5, b6, b7, b8, b9⟩ := h2
+  exact ⟨a1.trans b1, a2.trans b2, a3.trans b3, a4.trans b4, a5.trans b5, a6.trans b6, a7.trans b7, a8.trans b8, Nat.le_trans b9 a9⟩
+
+theorem mrefs_keepA {b : Nat} {w w' : W} (h : MRefs b w) (k : KeepA w' w) : MRefs b w' := by
+  obtain ⟨k1, k2, k3, k4, k5, k6, k7, k8, k9⟩ := k
+  exact mrefs_mono h k1 k2 k3 k4 k5 k6 k9 (by rw [k7]; exact Nat.le_refl _) (by rw [k8]; exact Nat.le_refl _)
+
+theorem keepA_writeVec (w : W) (c : Comp) (d : Nat) (v : List (List Nat)) : KeepA (writeVec w c d v) w :=
+  ⟨rfl, rfl, rfl, rfl, rfl, rfl, rfl, rfl, by simp [writeVec]⟩
+
+theorem keepA_writeIndices (w : W) (i : List Nat) (n : Nat) : KeepA (writeIndices w i n) w :=
+  ⟨rfl, rfl, rfl, rfl, rfl, rfl, rfl, rfl, by simp [writeIndices]⟩
+
+theorem writeAttrs_refs (w : W) (acc : List (String × Nat)) (l : List Attr) (hacc : ∀ ka ∈ acc, ka.2 < w.accessors.length) :
+    KeepA (writeAttrs w acc l).1 w ∧ ∀ ka ∈ (writeAttrs w acc l).2, ka.2 < (writeAttrs w acc l).1.accessors.length := by
+  induction l generalizing w acc with
+  | nil => exact ⟨⟨rfl, rfl, rfl, rfl, rfl, rfl, rfl, rfl, Nat.le_refl _⟩, hacc⟩
+  | cons a r ih =>
+    simp only [writeAttrs]
+    have hacc' : ∀ ka ∈ mapInsert acc (gltfAttrName a.name) w.accessors.length,
+        ka.2 < (writeVec w (attrComp a.name) a.dim a.vals).accessors.length := by
+      intro ka hka
+      have hl : (writeVec w (attrComp a.name) a.dim a.vals).accessors.length = w.accessors.length + 1 := by simp [writeVec]
+      rcases mem_mapInsert _ _ _ _ hka with h | h
+      · have := hacc ka h; omega
+      · subst h; simp [hl]
+    obtain ⟨k, hk⟩ := ih _ _ hacc'
+    exact ⟨k.trans' (keepA_writeVec _ _ _ _), hk⟩
+
+theorem writeMeshData_refs {b : Nat} (w : W) (id : Nat) (m : PMesh) (hw : MRefs b w) :
+    MRefs b (writeMeshData w id m).1
+    ∧ (∀ ka ∈ (writeMeshData w id m).2.1, ka.2 < (writeMeshData w id m).1.accessors.length)
+    ∧ (writeMeshData w id m).2.2 < (writeMeshData w id m).1.accessors.length
+    ∧ (writeMeshData w id m).1.meshes = w.meshes ∧ (writeMeshData w id m).1.materials = w.materials := by
+  obtain ⟨k, hk⟩ := writeAttrs_refs w [] m.written (by simp)
+  have k2 := (keepA_writeIndices (writeAttrs w [] m.written).1 m.indices m.attrLen).trans' k
+  have h2 := mrefs_keepA hw k2
+  have hlen : (writeIndices (writeAttrs w [] m.written).1 m.indices m.attrLen).accessors.length
+      = (writeAttrs w [] m.written).1.accessors.length + 1 := by simp [writeIndices]
+  refine ⟨⟨h2.matIdx, h2.meshes, ?_, h2.meshIdx, h2.nodes, h2.scene⟩, ?_, ?_, k2.2.1, k2.2.2.2.2.2.2.1⟩
+  · intro e he
+    rcases mem_mapInsert _ _ _ _ he with h | h
+    · exact h2.written e h
+    · subst h
+      refine ⟨fun ka hka => ?_, ?_⟩
+      · have := hk ka hka
+        show ka.2 < (writeIndices (writeAttrs w [] m.written).1 m.indices m.attrLen).accessors.length
+        omega
+      · show (writeAttrs w [] m.written).1.accessors.length < (writeIndices (writeAttrs w [] m.written).1 m.indices m.attrLen).accessors.length
+        omega
+  · intro ka hka
+    have := hk ka hka
+    show ka.2 < (writeIndices (writeAttrs w [] m.written).1 m.indices m.attrLen).accessors.length
+    omega
+  · show (writeAttrs w [] m.written).1.accessors.length < (writeIndices (writeAttrs w [] m.written).1 m.indices m.attrLen).accessors.length
+    omega
+
+theorem mrefs_appendMesh (w : W) (h : MRefs 1 w) (name : String) (p : Prim)
+    (hp : PrimRefs w.accessors.length w.materials.length p) :
+    MRefs 0 { w with meshes := w.meshes ++ [{ name := name, prims := [p] }] } := by
+  refine ⟨h.matIdx, ?_, h.written, ?_, ?_, h.scene⟩
+  · intro gm hgm q hq
+    simp only [List.mem_append, List.mem_singleton] at hgm
+    rcases hgm with hgm | rfl
+    · exact h.meshes gm hgm q hq
+    · simp only [List.mem_singleton] at hq; subst hq; exact hp
+  · intro q hq
+    have := h.meshIdx q hq
+    simp only [List.length_append, List.length_singleton]; omega
+  · intro n hn
+    obtain ⟨a, b, c⟩ := h.nodes n hn
+    refine ⟨fun m hm => ?_, b, c⟩
+    have := a m hm
+    simp only [List.length_append, List.length_singleton]; omega
+
+/-- `AddMesh`: every table stays in range and the returned mesh index is valid -/
+theorem addMesh_refs (w : W) (name : String) (id : Nat) (m : PMesh) (mat : Option Nat) (hw : MRefs 0 w)
+    (hmat : ∀ k, mat = some k → k < w.materials.length) :
+    MRefs 0 (addMesh w name id m mat).1
+    ∧ ∀ mi, (addMesh w name id m mat).2 = some mi → mi < (addMesh w name id m mat).1.meshes.length := by
+  unfold addMesh
+  split
+  · exact ⟨hw, by simp⟩
+  · split
+    · rename_i i hi
+      refine ⟨hw, fun mi h => ?_⟩
+      injection h with h; subst h
+      have := hw.meshIdx _ (lookup_mem _ _ _ hi)
+      simpa using this
+    · have h0 : MRefs 1 { w with meshIdx := mapInsert w.meshIdx (id, mat) w.meshes.length } := by
+        refine ⟨hw.matIdx, hw.meshes, hw.written, ?_, hw.nodes, hw.scene⟩
+        intro p hp
+        rcases mem_mapInsert _ _ _ _ hp with h | h
+        · have := hw.meshIdx p h; simp at this ⊢; omega
+        · subst h; simp
+      simp only
+      split
+      · rename_i attrs idx hl
+        obtain ⟨ha, hi⟩ := h0.written _ (lookup_mem _ _ _ hl)
+        exact ⟨mrefs_appendMesh _ h0 name _ ⟨ha, fun i h => by injection h with h; subst h; exact hi, hmat⟩, fun mi h => by
+          injection h with h; subst h; simp⟩
+      · obtain ⟨h1, ha, hi, hme, hma⟩ := writeMeshData_refs _ id m h0
+        refine ⟨mrefs_appendMesh _ h1 name _ ⟨ha, fun i h => by injection h with h; subst h; exact hi, ?_⟩, fun mi h => by
+          injection h with h; subst h; simp [hme]⟩
+        intro k hk
+        rw [hma]; exact hmat k hk
+
+theorem addInstances_refs (w : W) (inst : List (List Nat)) :
+    KeepA (addInstances w inst).1 w
+    ∧ ∀ ia, (addInstances w inst).2 = some ia → ∀ ka ∈ ia, ka.2 < (addInstances w inst).1.accessors.length := by
+  unfold addInstances
+  split
+  · exact ⟨⟨rfl, rfl, rfl, rfl, rfl, rfl, rfl, rfl, Nat.le_refl _⟩, by simp⟩
+  · simp only
+    refine ⟨?_, ?_⟩
+    · exact (keepA_writeVec _ _ _ _).trans' ((keepA_writeVec _ _ _ _).trans' ((keepA_writeVec _ _ _ _).trans'
+        ⟨rfl, rfl, rfl, rfl, rfl, rfl, rfl, rfl, Nat.le_refl _⟩))
+    · intro ia hia ka hka
+      injection hia with hia; subst hia
+      rcases mem_mapInsert _ _ _ _ hka with h | h
+      · rcases mem_mapInsert _ _ _ _ h with h | h
+        · rcases mem_mapInsert _ _ _ _ h with h | h
+          · cases h
+          · subst h; simp [writeVec]
+        · subst h; simp [writeVec]
+      · subst h; simp [writeVec]
+
+theorem addModelMaterial_refs (s : Scene) (w : W) (md : Model) (r : W × Option Nat)
+    (h : addModelMaterial s w md = .ok r) (hw : MRefs 0 w) : MRefs 0 r.1 ∧ ∀ k, r.2 = some k → k < r.1.materials.length := by
+  unfold addModelMaterial at h
+  split at h
+  · injection h with h; subst h; exact ⟨hw, by simp⟩
+  · split at h
+    · cases h
+    · split at h
+      · cases h
+      · rename_i r' h'
+        injection h with h; subst h
+        obtain ⟨h1, h2⟩ := addMaterial_refs _ _ _ _ h' hw
+        exact ⟨h1, fun k hk => by injection hk with hk; subst hk; exact h2⟩
+
+theorem addModel_refs (s : Scene) (w w' : W) (md : Model) (hw : MRefs 0 w) (h : addModel s w md = .ok w') : MRefs 0 w' := by
+  unfold addModel at h
+  split at h
+  · cases h
+  · split at h
+    · cases h
+    · rename_i _ id _ _ m hm
+      split at h
+      · injection h with h; subst h; exact hw
+      · split at h
+        · cases h
+        · rename_i r hr
+          obtain ⟨h1, hmat⟩ := addModelMaterial_refs s w md r hr hw
+          obtain ⟨h2, hmi⟩ := addMesh_refs r.1 md.name id m r.2 h1 hmat
+          simp only at h
+          split at h
+          · injection h with h; subst h; exact h2
+          · rename_i meshIndex hidx
+            injection h with h; subst h
+            obtain ⟨k, hinst⟩ := addInstances_refs (addMesh r.1 md.name id m r.2).1 md.instances
+            have h3 := mrefs_keepA h2 k
+            have hmesh := hmi meshIndex hidx
+            refine ⟨h3.matIdx, h3.meshes, h3.written, h3.meshIdx, ?_, ?_⟩
+            · intro n hn
+              simp only [List.mem_append, List.mem_singleton] at hn
+              rcases hn with hn | rfl
+              · exact h3.nodes n hn
+              · refine ⟨fun mm hmm => ?_, fun ia hia => hinst ia hia, fun l hl => by simp [modelNode] at hl⟩
+                simp only [modelNode] at hmm
+                injection hmm with hmm; subst hmm
+                rw [k.2.1]; exact hmesh
+            · intro n hn
+              simp only [List.mem_append, List.mem_singleton] at hn
+              simp only [List.length_append, List.length_singleton]
+              rcases hn with hn | rfl
+              · have := h3.scene n hn; omega
+              · rw [k.2.2.2.2.1]; omega
+
+theorem addModels_refs (s : Scene) (w w' : W) (l : List Model) (hw : MRefs 0 w) (h : addModels s w l = .ok w') : MRefs 0 w' := by
+  induction l generalizing w with
+  | nil => simp [addModels] at h; subst h; exact hw
+  | cons md r ih =>
+    simp only [addModels] at h
+    split at h
+    · cases h
+    · rename_i w1 h1
+      exact ih w1 (addModel_refs s w w1 md hw h1) h
+
+theorem addLight_refs (w : W) (p : List Nat) (hw : MRefs 0 w) : MRefs 0 (addLight w p) := by
+  refine ⟨hw.matIdx, hw.meshes, hw.written, hw.meshIdx, ?_, ?_⟩
+  · intro n hn
+    simp only [addLight, List.mem_append, List.mem_singleton] at hn
+    rcases hn with hn | rfl
+    · obtain ⟨a, b, c⟩ := hw.nodes n hn
+      exact ⟨a, b, fun l hl => by have := c l hl; simp only [addLight]; omega⟩
+    · exact ⟨by simp, by simp, fun l hl => by injection hl with hl; subst hl; simp [addLight]⟩
+  · intro n hn
+    simp only [addLight, List.mem_append, List.mem_singleton] at hn
+    simp only [addLight, List.length_append, List.length_singleton]
+    rcases hn with hn | rfl
+    · have := hw.scene n hn; omega
+    · omega
+
+theorem addLights_refs (w : W) (l : List (List Nat)) (hw : MRefs 0 w) : MRefs 0 (l.foldl addLight w) := by
+  induction l generalizing w with
+  | nil => exact hw
+  | cons p r ih => exact ih _ (addLight_refs w p hw)
+
+/-- INDEX REFERENCES, for every scene the writer accepts (no well-formedness needed): every primitive's attribute and
+    index accessor and its material exist; every node's mesh, instancing accessors and light exist; the scene lists
+    existing nodes; the dedup tables (material tracker, mesh table, written-mesh table) only hold valid indices.
+    (accessor → bufferView is `scene_valid_low`; material → texture → image / sampler: see residue.) -/
+theorem gltf_refs_in_range_partial (s : Scene) (w : W) (h : writeScene s = .ok w) : MRefs 0 w := by
+  unfold writeScene at h
+  split at h
+  · cases h
+  · rename_i w1 h1
+    split at h
+    · injection h with h; subst h
+      unfold addScene at h1
+      split at h1
+      · cases h1
+      · rename_i w0 h0
+        injection h1 with h1; subst h1
+        exact addLights_refs _ _ (addModels_refs s {} w0 s.models
+          ⟨by simp, by simp, by simp, by simp, by simp, by simp⟩ h0)
+    · cases h
+
+/-! ### node transforms -/
+
+theorem addMesh_nodes (w : W) (name : String) (id : Nat) (m : PMesh) (mat : Option Nat) :
+    (addMesh w name id m mat).1.nodes = w.nodes := by
+  unfold addMesh
+  split
+  · rfl
+  · split
+    · rfl
+    · simp only
+      split
+      · rfl
+      · obtain ⟨k, _⟩ := writeAttrs_refs { w with meshIdx := mapInsert w.meshIdx (id, mat) w.meshes.length } [] m.written (by simp)
+        exact k.2.2.2.2.1
+
+/-- NODE TRS: one iteration of the model loop either adds no node (empty mesh) or appends exactly one node whose name,
+    translation, rotation and scale are the model's own values, bit for bit, and lists it in the scene -/
+theorem gltf_node_trs (s : Scene) (w w' : W) (md : Model) (h : addModel s w md = .ok w') :
+    w'.nodes = w.nodes
+    ∨ ∃ mi inst, w'.nodes = w.nodes ++ [{ name := md.name, mesh := some mi, translation := md.translation,
+                                          rotation := md.rotation, scale := md.scale, inst := inst }] := by
+  unfold addModel at h
+  split at h
+  · cases h
+  · split at h
+    · cases h
+    · rename_i _ id _ _ m hm
+      split at h
+      · injection h with h; subst h; exact Or.inl rfl
+      · split at h
+        · cases h
+        · rename_i r hr
+          have e1 : r.1.nodes = w.nodes := by
+            unfold addModelMaterial at hr
+            split at hr
+            · injection hr with hr; subst hr; rfl
+            · split at hr
+              · cases hr
+              · split at hr
+                · cases hr
+                · rename_i r' h'
+                  injection hr with hr; subst hr
+                  unfold addMaterial at h'
+                  split at h'
+                  · split at h'
+                    · injection h' with h'; subst h'; rfl
+                    · cases h'
+                  · split at h'
+                    · cases h'
+                    · rename_i r1 h1
+                      split at h'
+                      · cases h'
+                      · rename_i r2 h2
+                        split at h'
+                        · cases h'
+                        · rename_i r3 h3
+                          split at h'
+                          · cases h'
+                          · split at h'
+                            · cases h'
+                            · rename_i r4 h4
+                              split at h'
+                              · cases h'
+                              · rename_i r5 h5
+                                injection h' with h'; subst h'
+                                exact ((keepM_addTexOpt _ _ _ _ h5).trans' ((keepM_addTexOpt _ _ _ _ h4).trans'
+                                  ((keepM_addMatExts _ _ _ _ h3).trans' ((keepM_addTexOpt _ _ _ _ h2).trans'
+                                  (keepM_addTexOpt _ _ _ _ h1))))).2.2.2.2.2.1
+          have e2 := addMesh_nodes r.1 md.name id m r.2
+          simp only at h
+          split at h
+          · injection h with h; subst h; exact Or.inl (e2.trans e1)
+          · rename_i meshIndex hidx
+            injection h with h; subst h
+            obtain ⟨k, _⟩ := addInstances_refs (addMesh r.1 md.name id m r.2).1 md.instances
+            refine Or.inr ⟨meshIndex, (addInstances (addMesh r.1 md.name id m r.2).1 md.instances).2, ?_⟩
+            simp only [modelNode]
+            rw [k.2.2.2.2.1, e2, e1]
+
 end C06
 
 
